@@ -677,4 +677,375 @@ theorem finish_user (a : PAcc) (h : ∀ s ∈ a.sets, firstUserId ≤ s.1) : fin
   simp [finish, h0, h1, h2]
 
 
+
+
+/-! ### the option table built from the declarations -/
+
+theorem addKey_spec (es es' : Entries) (k : Str) (o : Opt) (h : addKey es k o = some es') :
+    es'.lookup k = some o ∧ ∀ k' x, es.lookup k' = some x → es'.lookup k' = some x := by
+  unfold addKey at h
+  split at h
+  · cases h
+  · rename_i hn
+    injection h with h; subst h
+    have hnone : es.lookup k = none := by
+      cases hl : es.lookup k with
+      | none => rfl
+      | some x => simp [hl] at hn
+    constructor
+    · simp [List.lookup_append, hnone, List.lookup]
+    · intro k' x hx
+      simp [List.lookup_append, hx]
+
+theorem addOpt_spec (es es' : Entries) (single : Int) (name : Str) (o : Opt) (h : addOpt es single name o = some es') :
+    (single ≠ 0 → es'.lookup (encodeRune single) = some o) ∧ (name ≠ [] → es'.lookup name = some o) ∧
+    ∀ k' x, es.lookup k' = some x → es'.lookup k' = some x := by
+  unfold addOpt at h
+  split at h
+  · cases h
+  · split at h
+    · cases h
+    · rename_i es1 h1
+      have s1 : (single ≠ 0 → es1.lookup (encodeRune single) = some o) ∧
+          ∀ k' x, es.lookup k' = some x → es1.lookup k' = some x := by
+        by_cases hs : single = 0
+        · simp only [hs, ne_eq, not_true_eq_false, if_false] at h1
+          injection h1 with h1; subst h1
+          exact ⟨fun h => absurd hs h, fun _ _ hx => hx⟩
+        · simp only [ne_eq, hs, not_false_eq_true, if_true] at h1
+          have := addKey_spec es es1 _ o h1
+          exact ⟨fun _ => this.1, this.2⟩
+      by_cases hn : name = []
+      · simp only [hn, ne_eq, not_true_eq_false, if_false] at h
+        injection h with h; subst h
+        exact ⟨s1.1, fun h => absurd hn h, s1.2⟩
+      · simp only [ne_eq, hn, not_false_eq_true, if_true] at h
+        have := addKey_spec es1 es' name o h
+        exact ⟨fun hs => this.2 _ _ (s1.1 hs), fun _ => this.1, fun k' x hx => this.2 _ _ (s1.2 k' x hx)⟩
+
+theorem addDecls_spec (decls : List Decl) : ∀ (es es' : Entries) (id : Nat), addDecls es id decls = some es' →
+    (∀ i d, decls[i]? = some d →
+      (d.single ≠ 0 → es'.lookup (encodeRune d.single) = some ⟨id + i, d.kind.isBool⟩) ∧
+      (∀ n, d.name = some n → n ≠ [] → es'.lookup n = some ⟨id + i, d.kind.isBool⟩)) ∧
+    ∀ k' x, es.lookup k' = some x → es'.lookup k' = some x := by
+  induction decls with
+  | nil =>
+    intro es es' id h
+    simp only [addDecls] at h
+    injection h with h; subst h
+    exact ⟨fun i d hd => by simp at hd, fun _ _ hx => hx⟩
+  | cons d ds ih =>
+    intro es es' id h
+    simp only [addDecls] at h
+    split at h
+    · cases h
+    · rename_i es1 h1
+      have s1 := addOpt_spec es es1 _ _ _ h1
+      have s2 := ih es1 es' (id + 1) h
+      refine ⟨?_, fun k' x hx => s2.2 _ _ (s1.2.2 k' x hx)⟩
+      intro i d' hd'
+      cases i with
+      | zero =>
+        simp only [List.getElem?_cons_zero, Option.some.injEq] at hd'
+        subst hd'
+        refine ⟨fun hs => s2.2 _ _ (s1.1 hs), ?_⟩
+        intro n hn hne
+        have : d.name.getD [] = n := by simp [hn]
+        rw [this] at s1
+        exact s2.2 _ _ (s1.2.1 hne)
+      | succ j =>
+        simp only [List.getElem?_cons_succ] at hd'
+        have := s2.1 j d' hd'
+        have e : id + 1 + j = id + (j + 1) := by omega
+        rw [e] at this
+        exact this
+
+/-- every declared name is in the table of a successfully built command line, bound to its option (id = position
+    of the declaration) with the right arity -/
+theorem build_spec (incl : Bool) (decls : List Decl) (es : Entries) (h : build incl decls = some es) (i : Nat)
+    (d : Decl) (hd : decls[i]? = some d) :
+    (d.single ≠ 0 → tableOf es (encodeRune d.single) = some ⟨firstUserId + i, d.kind.isBool⟩) ∧
+    (∀ n, d.name = some n → tableOf es n = some ⟨firstUserId + i, d.kind.isBool⟩) := by
+  unfold build at h
+  split at h
+  · cases h
+  · rename_i hany
+    have := (addDecls_spec decls _ es firstUserId h).1 i d hd
+    refine ⟨this.1, fun n hn => this.2 n hn ?_⟩
+    intro hne
+    apply hany
+    simp only [List.any_eq_true]
+    refine ⟨d, List.mem_of_getElem? hd, ?_⟩
+    simp [hn, hne]
+
+
+/-! ### UTF-8 -/
+
+
+theorem isRune_enc2 (n : Nat) (h1 : 128 ≤ n) (h2 : n < 2048) : IsRune [192 + n / 64, 128 + n % 64] := by
+  refine ⟨by simp, fun rest => ?_⟩
+  have a1 : ¬ (192 + n / 64 < 128) := by omega
+  have a2 : 194 ≤ 192 + n / 64 := by omega
+  have a3 : 192 + n / 64 ≤ 223 := by omega
+  have a4 : 128 ≤ 128 + n % 64 := by omega
+  have a5 : 128 + n % 64 ≤ 191 := by omega
+  simp [runeLen, isCont, a1, a2, a3, a4, a5]
+
+theorem isRune_enc3 (n : Nat) (h1 : 2048 ≤ n) (h2 : n < 65536) (hs : n < 55296 ∨ 57343 < n) :
+    IsRune [224 + n / 4096, 128 + n / 64 % 64, 128 + n % 64] := by
+  refine ⟨by simp, fun rest => ?_⟩
+  have a1 : ¬ (224 + n / 4096 < 128) := by omega
+  have a2 : ¬ (194 ≤ 224 + n / 4096 ∧ 224 + n / 4096 ≤ 223) := by omega
+  have a3 : 224 ≤ 224 + n / 4096 := by omega
+  have a4 : 224 + n / 4096 ≤ 239 := by omega
+  have a5 : 128 ≤ 128 + n % 64 := by omega
+  have a6 : 128 + n % 64 ≤ 191 := by omega
+  have a7 : (if 224 + n / 4096 = 224 then 160 else 128) ≤ 128 + n / 64 % 64 := by split <;> omega
+  have a8 : 128 + n / 64 % 64 ≤ (if 224 + n / 4096 = 237 then 159 else 191) := by split <;> omega
+  simp only [runeLen, isCont, List.cons_append, List.nil_append, a1, if_false]
+  simp [a2, a3, a4, a5, a6, a8]
+  split <;> omega
+
+theorem isRune_enc4 (n : Nat) (h1 : 65536 ≤ n) (h2 : n ≤ 1114111) :
+    IsRune [240 + n / 262144, 128 + n / 4096 % 64, 128 + n / 64 % 64, 128 + n % 64] := by
+  refine ⟨by simp, fun rest => ?_⟩
+  have a1 : ¬ (240 + n / 262144 < 128) := by omega
+  have a2 : ¬ (194 ≤ 240 + n / 262144 ∧ 240 + n / 262144 ≤ 223) := by omega
+  have a2' : ¬ (224 ≤ 240 + n / 262144 ∧ 240 + n / 262144 ≤ 239) := by omega
+  have a3 : 240 ≤ 240 + n / 262144 := by omega
+  have a4 : 240 + n / 262144 ≤ 244 := by omega
+  have a5 : 128 ≤ 128 + n % 64 := by omega
+  have a6 : 128 + n % 64 ≤ 191 := by omega
+  have a5' : 128 ≤ 128 + n / 64 % 64 := by omega
+  have a6' : 128 + n / 64 % 64 ≤ 191 := by omega
+  have a7 : (if 240 + n / 262144 = 240 then 144 else 128) ≤ 128 + n / 4096 % 64 := by split <;> omega
+  have a8 : 128 + n / 4096 % 64 ≤ (if 240 + n / 262144 = 244 then 143 else 191) := by split <;> omega
+  simp only [runeLen, isCont, List.cons_append, List.nil_append, a1, if_false]
+  simp [a2, a2', a3, a4, a5, a6, a5', a6', a8]
+  split <;> omega
+
+/-- the UTF-8 encoding of every Unicode scalar value is decoded by the range loop as that one rune -/
+theorem isRune_encodeRune (r : Int) (h0 : 0 ≤ r) (h1 : r ≤ 1114111) (hs : r < 55296 ∨ 57343 < r) :
+    IsRune (encodeRune r) := by
+  have hneg : ¬ r < 0 := by omega
+  unfold encodeRune
+  simp only [hneg, if_false]
+  have hn : (r.toNat : Int) = r := Int.toNat_of_nonneg h0
+  generalize r.toNat = n at hn
+  subst hn
+  by_cases c1 : n < 128
+  · simp only [c1, if_true]; exact isRune_ascii n c1
+  · by_cases c2 : n < 2048
+    · simp only [c1, c2, if_true, if_false]; exact isRune_enc2 n (by omega) c2
+    · by_cases c3 : n < 65536
+      · have hsur : ¬ (55296 ≤ n ∧ n ≤ 57343) := by omega
+        simp only [c1, c2, c3, if_true, if_false]
+        have : (decide (55296 ≤ n) && decide (n ≤ 57343)) = false := by
+          simp only [Bool.and_eq_false_iff, decide_eq_false_iff_not]; omega
+        simp only [this, Bool.false_eq_true, if_false]
+        exact isRune_enc3 n (by omega) c3 (by omega)
+      · have c4 : n ≤ 1114111 := by omega
+        simp only [c1, c2, c3, c4, if_true, if_false]
+        exact isRune_enc4 n (by omega) c4
+
+
+/-! ### response files, semantic direction -/
+
+
+theorem notAt_cases (m : Mode) (arg : Str) (hna : ∀ (path : List Nat), m = Mode.look → arg = 64 :: path → False) :
+    (∃ o, m = .value o) ∨ m = .collect ∨ arg.head? ≠ some 64 := by
+  cases m with
+  | look =>
+    refine Or.inr (Or.inr ?_)
+    intro h
+    cases arg with
+    | nil => simp at h
+    | cons c t => simp at h; subst h; exact hna t rfl rfl
+  | value o => exact Or.inl ⟨o, rfl⟩
+  | collect => exact Or.inr (Or.inl rfl)
+
+/-- loading fewer paths beforehand can only help: a successful run stays the same run -/
+theorem run_seen_mono (seen' : List Str) (a : PAcc) (m : Mode) (args : List Str) (r : PAcc) :
+    ∀ seen, (∀ p, p ∈ seen → p ∈ seen') → run tbl acc files seen' a m args = .ok r →
+      run tbl acc files seen a m args = .ok r := by
+  induction seen', a, m, args using run.induct tbl acc files with
+  | case1 seen' a o => intro seen _ h; simp [run_nil] at h
+  | case2 seen' a m hm => intro seen _ h; simpa [run_nil] using h
+  | case3 seen' a args path hp => intro seen _ h; simp [run_at, hp] at h
+  | case4 seen' a args path hp hl => intro seen _ h; simp [run_at, hp, hl] at h
+  | case5 seen' a args path hp ins hl ih =>
+    intro seen hs h
+    have hp' : path ∉ seen := fun x => hp (hs path x)
+    simp only [run_at, hp, hl, if_false] at h
+    simp only [run_at, hp', hl, if_false]
+    apply ih _ _ h
+    intro p hpm
+    simp only [List.mem_cons] at hpm ⊢
+    rcases hpm with e | e
+    · exact Or.inl e
+    · exact Or.inr (hs p e)
+  | case6 seen' a args m arg hna hst =>
+    intro seen _ h
+    simp [run_step tbl acc files _ a m arg args (notAt_cases m arg hna), hst] at h
+  | case7 seen' a args m arg hna a' m' hst ih =>
+    intro seen hs h
+    simp only [run_step tbl acc files _ a m arg args (notAt_cases m arg hna), hst] at h ⊢
+    exact ih seen hs h
+
+/-- if the vector that mentions `@f` at an option boundary is accepted, the vector with the file's lines written
+    out in place is accepted with the same result — no side condition on the other files -/
+theorem run_response_inline (pre post ins : List Str) (f : Str) (seen seen₁ : List Str) (a a₁ r : PAcc)
+    (hb : ∀ tail, run tbl acc files seen a .look (pre ++ tail) = run tbl acc files seen₁ a₁ .look tail)
+    (hf : files.lookup f = some ins)
+    (h : run tbl acc files seen a .look (pre ++ (64 :: f) :: post) = .ok r) :
+    run tbl acc files seen a .look (pre ++ (ins ++ post)) = .ok r := by
+  rw [hb] at h ⊢
+  rw [run_at] at h
+  by_cases hs : f ∈ seen₁
+  · simp [hs] at h
+  · simp only [hs, if_false, hf] at h
+    exact run_seen_mono tbl acc files _ _ _ _ r seen₁ (fun p hp => by simp [hp]) h
+
+
+
+/-! ### the typed layer and small observations -/
+
+
+theorem kindOfId_user (incl : Bool) (decls : List Decl) (i : Nat) (d : Decl) (hd : decls[i]? = some d) :
+    kindOfId incl decls (firstUserId + i) = some d.kind := by
+  have h : ¬ (firstUserId + i < firstUserId) := by omega
+  simp [kindOfId, h, hd]
+
+theorem acceptsOf_user (orc : Oracle) (incl : Bool) (decls : List Decl) (i : Nat) (d : Decl) (hd : decls[i]? = some d)
+    (v : Str) : acceptsOf orc incl decls (firstUserId + i) v = (typed orc d.kind.base v).isSome := by
+  simp [acceptsOf, kindOfId_user incl decls i d hd]
+
+theorem run_bare_dash (tbl : Table) (acc : Accepts) (files : Files) (seen : List Str) (a : PAcc) (args : List Str) :
+    run tbl acc files seen a .look ([45] :: args) = run tbl acc files seen a .look args := by
+  rw [run_dash, short_step tbl acc a [] (by simp)]
+  simp [shortLoop]
+
+
+
+/-- an accepted signed value fits the declared width (so the conversion `intN(signedValue)` in values.go is exact) -/
+theorem parseInt_range (bits : Nat) (s : Str) (v : Int) (h : parseInt bits s = some v) :
+    -((2 ^ (bits - 1) : Nat) : Int) ≤ v ∧ v < ((2 ^ (bits - 1) : Nat) : Int) := by
+  have hp := Nat.two_pow_pos (bits - 1)
+  unfold parseInt at h
+  split at h
+  · cases h
+  · split at h
+    · split at h
+      · injection h with h; subst h; constructor <;> omega
+      · cases h
+    · cases h
+  · split at h
+    · split at h
+      · injection h with h; subst h; constructor <;> omega
+      · cases h
+    · cases h
+  · split at h
+    · split at h
+      · injection h with h; subst h; constructor <;> omega
+      · cases h
+    · cases h
+
+theorem parseUint_range (bits : Nat) (s : Str) (v : Int) (h : parseUint bits s = some v) :
+    0 ≤ v ∧ v < ((2 ^ bits : Nat) : Int) := by
+  unfold parseUint at h
+  split at h
+  · split at h
+    · injection h with h; subst h; constructor <;> omega
+    · cases h
+  · cases h
+
+
+/-! ### from declarations to valid spellings -/
+
+
+theorem encodeRune_head (r : Int) (hne : r ≠ 45) : (encodeRune r).head? ≠ some 45 := by
+  unfold encodeRune
+  by_cases hneg : r < 0
+  · simp [hneg, fffd]
+  · simp only [hneg, if_false]
+    have hn : (r.toNat : Int) = r := Int.toNat_of_nonneg (by omega)
+    have h45 : r.toNat ≠ 45 := by omega
+    generalize r.toNat = n at hn h45
+    by_cases c1 : n < 128
+    · simp [c1, h45]
+    · by_cases c2 : n < 2048
+      · simp only [c1, c2, if_true, if_false, List.head?_cons]; simp; omega
+      · by_cases c3 : n < 65536
+        · simp only [c1, c2, c3, if_true, if_false]
+          split
+          · simp [fffd]
+          · simp; omega
+        · by_cases c4 : n ≤ 1114111
+          · simp only [c1, c2, c3, c4, if_true, if_false, List.head?_cons]; simp; omega
+          · simp [c1, c2, c3, c4, fffd]
+
+/-- from the declarations alone: the short spellings of a declared value-taking option are valid -/
+theorem declared_short_valid (orc : Oracle) (incl : Bool) (decls : List Decl) (es : Entries)
+    (hb : build incl decls = some es) (i : Nat) (d : Decl) (hd : decls[i]? = some d)
+    (h0 : 0 < d.single) (h1 : d.single ≤ 1114111) (hs : d.single < 55296 ∨ 57343 < d.single) (h45 : d.single ≠ 45)
+    (hk : d.kind.isBool = false) (v : Str) (hv : (typed orc d.kind.base v).isSome = true) :
+    (Spell.shortSep [] (encodeRune d.single) ⟨firstUserId + i, false⟩ v).Valid (tableOf es) (acceptsOf orc incl decls) ∧
+    (Spell.shortEq [] (encodeRune d.single) ⟨firstUserId + i, false⟩ v).Valid (tableOf es) (acceptsOf orc incl decls) := by
+  have ht := (build_spec incl decls es hb i d hd).1 (by omega)
+  rw [hk] at ht
+  have hr := isRune_encodeRune d.single (by omega) h1 hs
+  have hh : (flagKeys [] ++ encodeRune d.single).head? ≠ some 45 := by
+    simpa [flagKeys] using encodeRune_head d.single h45
+  have ha : acceptsOf orc incl decls (firstUserId + i) v = true := by
+    rw [acceptsOf_user orc incl decls i d hd]; exact hv
+  have hf : FlagsOK (tableOf es) (acceptsOf orc incl decls) [] := by intro x hx; simp at hx
+  exact ⟨⟨⟨hf, ht, rfl, hr, hh⟩, by simpa [Spell.accepted, Spell.last] using ha⟩,
+         ⟨⟨hf, ht, rfl, hr, hh⟩, by simpa [Spell.accepted, Spell.last] using ha⟩⟩
+
+/-- … and the long spellings of a declared value-taking option whose name contains no `=` -/
+theorem declared_long_valid (orc : Oracle) (incl : Bool) (decls : List Decl) (es : Entries)
+    (hb : build incl decls = some es) (i : Nat) (d : Decl) (hd : decls[i]? = some d) (n : Str)
+    (hn : d.name = some n) (heq : 61 ∉ n) (hk : d.kind.isBool = false) (v : Str)
+    (hv : (typed orc d.kind.base v).isSome = true) :
+    (Spell.longEq n ⟨firstUserId + i, false⟩ v).Valid (tableOf es) (acceptsOf orc incl decls) ∧
+    (Spell.longSep n ⟨firstUserId + i, false⟩ v).Valid (tableOf es) (acceptsOf orc incl decls) := by
+  have ht := (build_spec incl decls es hb i d hd).2 n hn
+  rw [hk] at ht
+  have hne : n ≠ [] := by
+    intro e
+    subst e
+    have : tableOf es [] = none := by
+      -- every key of a built table is non-empty; simplest: the declaration check rejects names shorter than 2 bytes
+      unfold build at hb
+      split at hb
+      · cases hb
+      · rename_i hany
+        exfalso
+        apply hany
+        simp only [List.any_eq_true]
+        exact ⟨d, List.mem_of_getElem? hd, by simp [hn]⟩
+    rw [this] at ht; cases ht
+  have ha : acceptsOf orc incl decls (firstUserId + i) v = true := by
+    rw [acceptsOf_user orc incl decls i d hd]; exact hv
+  exact ⟨⟨⟨ht, rfl, heq, hne⟩, by simpa [Spell.accepted, Spell.last] using ha⟩,
+         ⟨⟨ht, rfl, heq, hne⟩, by simpa [Spell.accepted, Spell.last] using ha⟩⟩
+
+
+/-! ### a concrete instance (used for the non-vacuity examples of Props/C10.lean) -/
+
+def exTbl : Table := tableOf [([110], ⟨3, false⟩), ([110, 97, 109, 101], ⟨3, false⟩), ([97], ⟨4, true⟩)]
+def exSpells : List Spell :=
+  [.shortEq [([97], ⟨4, true⟩)] [110] ⟨3, false⟩ [120], .longSep [110, 97, 109, 101] ⟨3, false⟩ [121]]
+
+theorem exValid : ∀ sp ∈ exSpells, sp.Valid exTbl (fun _ _ => true) := by
+  intro sp hsp
+  simp only [exSpells, List.mem_cons, List.mem_nil_iff, or_false] at hsp
+  rcases hsp with rfl | rfl
+  · refine ⟨⟨?_, rfl, rfl, isRune_ascii 110 (by omega), by simp [flagKeys]⟩, rfl⟩
+    intro x hx
+    simp only [List.mem_cons, List.mem_nil_iff, or_false] at hx
+    subst hx
+    exact ⟨rfl, rfl, isRune_ascii 97 (by omega), rfl⟩
+  · exact ⟨⟨rfl, rfl, by decide, by simp⟩, rfl⟩
+
 end Cmd
